@@ -15,10 +15,14 @@ Inductive skel :=
 | SAcc (f : string) (k : akind)
 | SClock                                (* steady_clock::now() *)
 | SRefDecl (x : string)                 (* a local of reference / pointer / iterator type is declared *)
-| SSeq (l : list skel)
+| SSkip
+| SThen (a b : skel)                    (* sequencing *)
 | SLocked (b : skel)                    (* lock_guard scope: from the declaration to the end of its block *)
 | SLoop (b : skel)
 | SChoice (a b : skel).
+
+(* n-ary sequencing, as the generated files write it *)
+Definition SSeq (l : list skel) : skel := fold_right SThen SSkip l.
 
 Definition akind_eqb (a b : akind) : bool :=
   match a, b with AR, AR | AE, AE | AW, AW => true | _, _ => false end.
@@ -27,8 +31,8 @@ Definition akind_eqb (a b : akind) : bool :=
 Fixpoint accesses (held : bool) (s : skel) : list (string * akind * bool) :=
   match s with
   | SAcc f k => [(f, k, held)]
-  | SClock | SRefDecl _ => []
-  | SSeq l => flat_map (accesses held) l
+  | SClock | SRefDecl _ | SSkip => []
+  | SThen a b => accesses held a ++ accesses held b
   | SLocked b => accesses true b
   | SLoop b => accesses held b
   | SChoice a b => accesses held a ++ accesses held b
@@ -37,7 +41,7 @@ Fixpoint accesses (held : bool) (s : skel) : list (string * akind * bool) :=
 (* number of lock regions on the worst path; a region inside a loop counts twice (= "many") *)
 Fixpoint regions (s : skel) : nat :=
   match s with
-  | SSeq l => fold_right (fun x n => regions x + n) 0 l
+  | SThen a b => regions a + regions b
   | SLocked b => 1 + regions b
   | SLoop b => 2 * regions b
   | SChoice a b => Nat.max (regions a) (regions b)
@@ -47,7 +51,7 @@ Fixpoint regions (s : skel) : nat :=
 (* a lock region nested in a lock region (self-deadlock on std::mutex) *)
 Fixpoint nested (held : bool) (s : skel) : bool :=
   match s with
-  | SSeq l => existsb (nested held) l
+  | SThen a b => nested held a || nested held b
   | SLocked b => held || nested true b
   | SLoop b => nested held b
   | SChoice a b => nested held a || nested held b
@@ -58,7 +62,7 @@ Fixpoint nested (held : bool) (s : skel) : bool :=
 Fixpoint ref_outside (held : bool) (s : skel) : bool :=
   match s with
   | SRefDecl _ => negb held
-  | SSeq l => existsb (ref_outside held) l
+  | SThen a b => ref_outside held a || ref_outside held b
   | SLocked b => false
   | SLoop b => ref_outside held b
   | SChoice a b => ref_outside held a || ref_outside held b
